@@ -42,6 +42,12 @@ func (a *c18) followBool(fd *ast.FuncDecl, seedCalls map[*ast.CallExpr]int, seed
 			if _, ok := seedCalls[x]; ok {
 				return true
 			}
+			// a helper that hands out the value of a seed object (takeRequest() returning the flag)
+			if len(seedObjs) > 0 {
+				if g := callee(info, x); g != nil && a.c.P.Decl(g) != nil && a.c.P.Decl(g) != fd && a.returnsSeed(g, seedObjs) {
+					return true
+				}
+			}
 		case *ast.Ident:
 			return bf.tainted[info.Uses[x]] || bf.tainted[info.Defs[x]]
 		case *ast.SelectorExpr:
@@ -146,6 +152,30 @@ func (a *c18) followBool(fd *ast.FuncDecl, seedCalls map[*ast.CallExpr]int, seed
 					bf.loopCond, bf.loop = true, x
 					changed = true
 				}
+				// `for { …; if !request { return/break } }`: the loop goes on exactly while requested
+				if x.Cond == nil && !bf.loopCond {
+					ast.Inspect(x.Body, func(m ast.Node) bool {
+						is, ok := m.(*ast.IfStmt)
+						if !ok || bf.loopCond {
+							return true
+						}
+						un, ok := unparen(is.Cond).(*ast.UnaryExpr)
+						if !ok || un.Op != token.NOT || !isReq(un.X) || len(is.Body.List) == 0 {
+							return true
+						}
+						switch last := is.Body.List[len(is.Body.List)-1].(type) {
+						case *ast.ReturnStmt:
+							bf.loopCond, bf.loop = true, x
+							changed = true
+						case *ast.BranchStmt:
+							if last.Tok == token.BREAK {
+								bf.loopCond, bf.loop = true, x
+								changed = true
+							}
+						}
+						return true
+					})
+				}
 			}
 			return true
 		})
@@ -157,4 +187,23 @@ func (a *c18) followBool(fd *ast.FuncDecl, seedCalls map[*ast.CallExpr]int, seed
 		}
 	}
 	return bf
+}
+
+// returnsSeed: g's result carries the value of one of the seed objects.
+func (a *c18) returnsSeed(g *types.Func, seedObjs map[types.Object]bool) bool {
+	if a.seedBusy == nil {
+		a.seedBusy = map[*types.Func]bool{}
+		a.seedMemo = map[*types.Func]bool{}
+	}
+	if v, ok := a.seedMemo[g]; ok {
+		return v
+	}
+	if a.seedBusy[g] {
+		return false
+	}
+	a.seedBusy[g] = true
+	bf := a.followBool(a.c.P.Decl(g), nil, seedObjs)
+	a.seedBusy[g] = false
+	a.seedMemo[g] = len(bf.ownIdx) > 0
+	return a.seedMemo[g]
 }
